@@ -24,9 +24,11 @@ type brokerReplay struct {
 // exploreProfiles runs the BFS for each profile and folds the outcome into r.
 // Only violations of property r.Property are reported.
 func exploreProfiles(r *ev.Result, budget time.Duration, profiles ...*bworld.Profile) {
-	per := budget / time.Duration(len(profiles))
+	end := time.Now().Add(budget)
 	var perProfile []map[string]any
-	for _, p := range profiles {
+	for i, p := range profiles {
+		/* Each profile may use an equal share of what is left. */
+		per := time.Until(end) / time.Duration(len(profiles)-i)
 		res, err := bworld.Explore(p, ncpu(), time.Now().Add(per))
 		if nil != err {
 			ev.Broken("exploring %s: %s", p.Name, err)
